@@ -491,7 +491,16 @@ Section Loader.
       Ok (match rest with None => None | Some b => Some (this && b) end)
     end.
 
-  (** consolidateAsset: [Ok (Some a')] admitted, [Ok None] left out. *)
+  (** int(math.Round(float64(dur*1000) / float64(ts*n))) for the reference representation: the
+      quotient rounded half away from zero (exact for |dur*1000| < 2^53; ts*n > 0 here). *)
+  Definition ref_seg_dur_ms (r : repdata) : Z :=
+    let x := mul64 (rduration (r_segs r)) 1000 in
+    let d := r_mediats r * lenZ (r_segs r) in
+    if d =? 0 then - two63
+    else if x >=? 0 then (2 * x + d) / (2 * d) else - ((2 * (- x) + d) / (2 * d)).
+
+  (** consolidateAsset: [Ok (Some a')] admitted, [Ok None] left out.  The segment duration of an
+      admitted asset is that of its reference representation. *)
   Definition consolidate (a : asset) : res (option asset) :=
     match reference_rep a with
     | None => Ok None
@@ -504,7 +513,7 @@ Section Loader.
         else
           do v <- check_reps ref loopMS (a_reps a);
           match v with
-          | Some true => Ok (Some {| a_mpds := a_mpds a; a_reps := a_reps a; a_segdur := a_segdur a;
+          | Some true => Ok (Some {| a_mpds := a_mpds a; a_reps := a_reps a; a_segdur := ref_seg_dur_ms ref;
                                      a_loop := loopMS; a_ref := Some k |})
           | _ => Ok None
           end
